@@ -430,20 +430,19 @@ def rule_f(ctx):
     if not sup:
       problems.append('base seal not called')
     else:
-      # the early return `if self.is_sealed == sealed: return` is the only
-      # path allowed to skip the base seal
+      # no path skips the base seal - and none skips the walk over the children: the state of
+      # the container says nothing about its descendants (a child that was sealed before it was
+      # inserted, or inserted under as_sealed(False)), so `if self.is_sealed == sealed: return`
+      # is NOT a harmless shortcut: p.seal(False) would leave a sealed child sealed
       pass_pred = lambda n: any(A.call_name(c) in ('super().seal', 'super().sym_seal', 'self.sym_seal') for c in n.calls())
-      early = [n for n in g.nodes if n.kind == 'test' and 'is_sealed' in A.unparse(n.ast)]
-      start = g.entry
-      wit = None
-      if early:
-        for m, lab in early[0].succ:
-          if lab == 'false':
-            wit = g.can_skip(m, pass_pred) if not pass_pred(m) else None
-      else:
-        wit = g.can_skip(g.entry, pass_pred)
+      wit = g.can_skip(g.entry, pass_pred)
       if wit:
         problems.append(f'a path skips the base seal: {wit}')
+      heads = [n for n in g.nodes if n.kind == 'iter' and any(n.ast is lp for lp in loops)]
+      wl = g.can_skip(g.entry, lambda n: n in heads) if heads else 'no child loop'
+      if wl:
+        problems.append(f'a path returns without visiting the children: {wl} - unsealing (or sealing) the container '
+                        f'leaves descendants in the other state')
     ctx.ob('C08.f', f.fq, not problems,
            'seal visits every symbolic child with the same flag and then the '
            'base seal', f.loc, '; '.join(problems))
